@@ -418,6 +418,22 @@ def compare(E, op, a, b):
             r = (not r) if isinstance(r, bool) else z3.Not(r)
         return _wrapb(r)
     # ordering
+    if isinstance(a, VT) and isinstance(b, VT):
+        def conc(t):
+            out = []
+            for x in t.items:
+                if isinstance(x, VC):
+                    out.append(x.v)
+                elif isinstance(x, VT):
+                    out.append(conc(x))
+                else:
+                    raise Unsupported('ordering of tuples with symbolic components')
+            return tuple(out)
+        x, y = conc(a), conc(b)
+        try:
+            return VC({'Lt': x < y, 'LtE': x <= y, 'Gt': x > y, 'GtE': x >= y}[op])
+        except TypeError as e:
+            _raise('TypeError', str(e))
     if isinstance(a, VC) and isinstance(b, VC):
         try:
             return VC({'Lt': a.v < b.v, 'LtE': a.v <= b.v, 'Gt': a.v > b.v, 'GtE': a.v >= b.v}[op])
